@@ -12,6 +12,8 @@
 //	end                       end of the case (the model driver replays the whole case through the model here)
 //	observation: exec=<p>.<seq>,... g=<goroutines> fill=<len(chanTask)> P=<p>:<ok>:<nil>:<blocked>:<panicked>;...
 //
+// Several anonymous run services (reset kind=m): svc id= / mpost svc= n= [x=] / mchain svc= n= / mstop svc=
+//
 // Waterfall cases (reset kind=w, consumer running):
 //
 //	chain id=<c> via=sche|builder tasks=<mode><err><a|r><val>,...
@@ -108,13 +110,29 @@ type env struct {
 	wFill    int  // filler closures queued
 	wChain   int  // chain closures queued (start / invokeCallback), the blocked starter included
 	wBlocked bool // one chain starter is blocked in Post on the full channel
+
+	// kind=m: several anonymous run services alive at once
+	svcs map[int]*msvc
+}
+
+type msvc struct {
+	id      int
+	rs      *runservice.RunService
+	gid     int64
+	next    int
+	stopped bool
 }
 
 var caseNo int
 
 func newEnv(kind, cons string) *env {
 	caseNo++
-	e := &env{kind: kind, cons: cons, posters: map[int]*poster{}, mainGid: goid()}
+	e := &env{kind: kind, cons: cons, posters: map[int]*poster{}, mainGid: goid(), svcs: map[int]*msvc{}}
+	if kind == "m" {
+		e.s = sche.NewSche() // only to report the channel capacity; the services bring their own schedulers
+		e.stopped = true
+		return e
+	}
 	if cons == "r" {
 		e.rs = runservice.NewRunService(fmt.Sprintf("c15-%d", caseNo))
 		e.s = e.rs.GetScheduler()
@@ -332,6 +350,12 @@ func (e *env) cleanup() {
 	if e == nil {
 		return
 	}
+	for _, v := range e.svcs {
+		if !v.stopped {
+			v.stopped = true
+			hx.Guard(func() string { v.rs.Stop(); return "" })
+		}
+	}
 	e.mu.Lock()
 	e.closing = true
 	e.mu.Unlock()
@@ -475,7 +499,10 @@ func exec(op string) string {
 		cur.cleanup()
 		kind, _ := hx.KV(ws, "kind")
 		cons, _ := hx.KV(ws, "cons")
-		if (kind != "s" && kind != "w") || (cons != "h" && cons != "r") {
+		if kind == "m" {
+			cons = "r"
+		}
+		if (kind != "s" && kind != "w" && kind != "m") || (cons != "h" && cons != "r") {
 			cur = nil
 			return "bad-op"
 		}
@@ -493,6 +520,12 @@ func exec(op string) string {
 	if ws[0] == "end" { // end of a case: the model driver replays the whole scheduler case here
 		synctest.Wait()
 		return "ok"
+	}
+	if ws[0] == "next" { // announcement of an op that hands a panicking closure to the code (see postsPanic)
+		return "ok"
+	}
+	if e.kind == "m" {
+		return e.execMulti(ws)
 	}
 	if e.kind == "s" {
 		switch ws[0] {
@@ -690,6 +723,203 @@ func exec(op string) string {
 		return "ok"
 	}
 	return "bad-op"
+}
+
+// ---- several anonymous run services ---------------------------------------
+
+func (e *env) svcLabel(g int64) string {
+	for _, v := range e.svcs {
+		if v.gid == g && g != 0 {
+			return fmt.Sprintf("s%d", v.id)
+		}
+	}
+	if g == e.mainGid {
+		return "m"
+	}
+	return "o"
+}
+
+func (e *env) execMulti(ws []string) string {
+	switch ws[0] {
+	case "svc": // runservice.NewRunService("") + Start, as actorex's NewScheDisp("") does
+		if _, ok := hx.KV(ws, "id"); !ok {
+			return "bad-op"
+		}
+		id := hx.KVInt(ws, "id")
+		if e.svcs[id] != nil {
+			return "bad-op"
+		}
+		v := &msvc{id: id}
+		r := hx.Guard(func() string {
+			v.rs = runservice.NewRunService("")
+			probe := make(chan int, 1)
+			v.rs.GetSelector().AddSelector("verifprobe", sche.NewFuncSelector(reflect.ValueOf(probe),
+				func(reflect.Value, bool) {
+					e.mu.Lock()
+					v.gid = goid()
+					e.mu.Unlock()
+				}))
+			v.rs.Start()
+			probe <- 1
+			return "ok"
+		})
+		e.svcs[id] = v
+		synctest.Wait()
+		return r
+	case "mpost", "mchain", "mstop":
+		v := e.svcs[hx.KVInt(ws, "svc")]
+		if _, ok := hx.KV(ws, "svc"); !ok || v == nil || v.rs == nil {
+			return "bad-op"
+		}
+		switch ws[0] {
+		case "mstop":
+			if v.stopped {
+				return "bad-op"
+			}
+			v.stopped = true
+			r := hx.Guard(func() string { v.rs.Stop(); return "ok" })
+			synctest.Wait()
+			return r
+		case "mpost":
+			if _, ok := hx.KV(ws, "n"); !ok {
+				return "bad-op"
+			}
+			n := hx.KVInt(ws, "n")
+			px := -1
+			if _, ok := hx.KV(ws, "x"); ok {
+				px = hx.KVInt(ws, "x")
+			}
+			var recs []execRec
+			okc, nilc := 0, 0
+			r := hx.Guard(func() string {
+				for i := 0; i < n; i++ {
+					seq, panics := v.next, i == px
+					v.next++
+					t := v.rs.GetScheduler().Post(func() {
+						g := goid()
+						e.mu.Lock()
+						recs = append(recs, execRec{v.id, seq, g})
+						e.mu.Unlock()
+						if panics {
+							panic("C15 harness: this closure panics")
+						}
+					})
+					if t == nil {
+						nilc++
+					} else {
+						okc++
+					}
+				}
+				return ""
+			})
+			synctest.Wait()
+			if r != "" {
+				return r
+			}
+			e.mu.Lock()
+			defer e.mu.Unlock()
+			ex := "-"
+			if len(recs) > 0 {
+				parts := make([]string, len(recs))
+				for i, x := range recs {
+					parts[i] = fmt.Sprintf("%d.%d@%s", x.p, x.seq, e.svcLabel(x.g))
+				}
+				ex = strings.Join(parts, ",")
+			}
+			return fmt.Sprintf("exec=%s ret=%d:%d", ex, okc, nilc)
+		case "mchain":
+			if _, ok := hx.KV(ws, "n"); !ok {
+				return "bad-op"
+			}
+			n := hx.KVInt(ws, "n")
+			var evs []string
+			note := func(s string) {
+				g := goid()
+				e.mu.Lock()
+				evs = append(evs, s+"@"+e.svcLabel(g))
+				e.mu.Unlock()
+			}
+			tasks := make([]waterfall.Task, n)
+			for i := range tasks {
+				i := i
+				tasks[i] = func(cb waterfall.Callback, args ...interface{}) {
+					note(fmt.Sprintf("t%d%s", i, showArgs(args)))
+					if cb != nil {
+						cb(false, append(append([]interface{}{}, args...), i)...)
+					}
+				}
+			}
+			r := hx.Guard(func() string {
+				waterfall.Sche(v.rs.GetScheduler(), tasks, func(err bool, args ...interface{}) {
+					note(fmt.Sprintf("f%d%s", hx.B2i(err), showArgs(args)))
+				})
+				return ""
+			})
+			synctest.Wait()
+			if r != "" {
+				return r
+			}
+			e.mu.Lock()
+			defer e.mu.Unlock()
+			if len(evs) == 0 {
+				return "-"
+			}
+			return strings.Join(evs, " ")
+		}
+	}
+	return "bad-op"
+}
+
+// multiCase: several anonymous run services alive at once, stopped and created in any order.
+func (g *gen) multiCase() {
+	h := g.h
+	R := h.R
+	g.run("reset kind=m")
+	var alive, all []int
+	next := 1
+	create := func() {
+		g.run(fmt.Sprintf("svc id=%d", next))
+		alive = append(alive, next)
+		all = append(all, next)
+		next++
+	}
+	create()
+	if R.Intn(4) > 0 {
+		create()
+	}
+	steps := 4 + R.Intn(10)
+	for i := 0; i < steps; i++ {
+		switch x := R.Intn(10); {
+		case x < 5:
+			k := all[R.Intn(len(all))]
+			n := 1 + R.Intn(6)
+			op := fmt.Sprintf("mpost svc=%d n=%d", k, n)
+			if R.Intn(4) == 0 {
+				op += fmt.Sprintf(" x=%d", R.Intn(n))
+				h.Count("m.post.panicking")
+			}
+			h.Count("m.post")
+			g.run(op)
+		case x < 7:
+			k := all[R.Intn(len(all))]
+			h.Count("m.chain")
+			g.run(fmt.Sprintf("mchain svc=%d n=%d", k, R.Intn(5)))
+		case x < 8 && len(alive) > 0:
+			j := R.Intn(len(alive))
+			k := alive[j]
+			alive = append(alive[:j], alive[j+1:]...)
+			h.Count("m.stop")
+			g.run(fmt.Sprintf("mstop svc=%d", k))
+		default:
+			if len(all) < 6 {
+				if len(alive) < len(all) {
+					h.Count("m.created-after-stop")
+				}
+				create()
+			}
+		}
+	}
+	h.Count(fmt.Sprintf("m.services.%d", len(all)))
 }
 
 // ---- generators ----------------------------------------------------------
@@ -1041,6 +1271,28 @@ func (g *gen) sweep() {
 			g.h.Count("w.sweep.parked")
 		}
 	}
+	// two anonymous run services side by side, one stopped, a third created afterwards; a panicking closure on each
+	g.run("reset kind=m")
+	g.run("svc id=1")
+	g.run("svc id=2")
+	g.run("mpost svc=1 n=6")
+	g.run("mpost svc=2 n=6 x=2")
+	g.run("mchain svc=1 n=3")
+	g.run("mchain svc=2 n=0")
+	g.run("mpost svc=1 n=40 x=0")
+	g.run("mstop svc=1")
+	g.run("mpost svc=2 n=5")
+	g.run("mchain svc=2 n=4")
+	g.run("mpost svc=1 n=2")
+	g.run("svc id=3")
+	g.run("mpost svc=3 n=4 x=3")
+	g.run("mchain svc=3 n=2")
+	g.run("mpost svc=2 n=3")
+	g.run("mstop svc=2")
+	g.run("mstop svc=3")
+	g.run("svc id=4")
+	g.run("mpost svc=4 n=2")
+	g.h.Count("m.sweep")
 	// fill levels: exactly at / around the capacity, single and multiple posters, both consumers
 	qs := sche.QueueSize
 	for _, cons := range []string{"h", "r"} {
@@ -1073,6 +1325,33 @@ func (g *gen) sweep() {
 	}
 }
 
+// postsPanic: does the op hand a panicking closure / task to the code under test?
+func postsPanic(op string) bool {
+	ws := hx.Words(op)
+	if len(ws) == 0 {
+		return false
+	}
+	switch ws[0] {
+	case "burst":
+		for _, w := range ws[1:] {
+			if i := strings.IndexByte(w, '='); i >= 0 && strings.ContainsRune(w[i+1:], 'x') {
+				return true
+			}
+		}
+	case "chain":
+		v, _ := hx.KV(ws, "tasks")
+		for _, t := range strings.Split(v, ",") {
+			if len(t) > 0 && (t[0] == 'p' || t[0] == 'q') {
+				return true
+			}
+		}
+	case "mpost":
+		_, ok := hx.KV(ws, "x")
+		return ok
+	}
+	return false
+}
+
 // bubble runs `body` inside one synctest bubble with the trace plumbing; it never returns (syscall.Exit).
 func bubble(t *testing.T, body func(h *hx.T, run func(op string) string)) {
 	// silence the panic reports of doTask / Post (stack traces through logrus) and "RunServeice loop end"
@@ -1092,6 +1371,14 @@ func bubble(t *testing.T, body func(h *hx.T, run func(op string) string)) {
 		}
 		open := false
 		run := func(op string) string {
+			if strings.HasPrefix(op, "next ") {
+				return "ok" // regenerated below
+			}
+			if postsPanic(op) {
+				// should the consumer's goroutine die of the panic the whole process goes down before this op can
+				// be recorded: announce it, so that the trace (and the replay file) names the op that did it
+				emit("next " + op)
+			}
 			if strings.HasPrefix(op, "reset") {
 				if open {
 					emit("end")
@@ -1114,9 +1401,18 @@ func bubble(t *testing.T, body func(h *hx.T, run func(op string) string)) {
 
 func TestRun(t *testing.T) {
 	bubble(t, func(h *hx.T, run func(op string) string) {
-		if ops := hx.ReplayOps(); ops != nil {
-			for _, op := range ops {
+		if all := hx.ReplayOps(); all != nil {
+			var ops []string
+			for _, op := range all {
+				if !strings.HasPrefix(op, "<") { // "<harness-exit ...>" is bin/check's note, not an op
+					ops = append(ops, op)
+				}
+			}
+			for i, op := range ops {
 				run(op)
+				if i == len(ops)-1 && strings.HasPrefix(op, "next ") {
+					run(strings.TrimPrefix(op, "next ")) // the recording died inside the announced op
+				}
 			}
 			return
 		}
@@ -1128,6 +1424,10 @@ func TestRun(t *testing.T) {
 		g.sweep()
 		n := hx.EnvInt("VERIF_N", 60)
 		for i := 0; i < n; i++ {
+			if h.R.Intn(6) == 0 {
+				h.Count("case.multi")
+				g.multiCase()
+			}
 			if h.R.Intn(2) == 0 {
 				h.Count("case.sche")
 				g.scheCase()
